@@ -41,6 +41,8 @@ static void do_new(char **a, int n) {
         else if (!strcmp(a[i], "year")) c.year = atoi(v);
         else if (!strcmp(a[i], "seed")) c.seed = strtoull(v, NULL, 10);
         else if (!strcmp(a[i], "keepkeys")) c.keep_skeys = atoi(v);
+        else if (!strcmp(a[i], "psk")) c.psk = atoi(v);
+        else if (!strcmp(a[i], "smaxed")) c.smaxed = atoi(v);
     }
     int rc = sess_new(&c);
     if (rc == 0) { g_quiet = 1; flush_out(&g_c); g_quiet = 0; }
